@@ -52,8 +52,8 @@ pub enum Eqn {
     Lin { terms: Vec<(CellRef, i64)>, konst: i64, out: CellRef },
     /// prod(a_i) - out
     Prod { factors: Vec<CellRef>, out: CellRef },
-    /// a - instance(icol, cur)
-    Inst { a: CellRef, icol: usize },
+    /// a - instance(icol, irot)
+    Inst { a: CellRef, icol: usize, irot: i32 },
     /// b - a * challenge[ch]
     Chal { a: CellRef, b: CellRef, ch: usize },
 }
@@ -90,6 +90,10 @@ impl GateSpec {
             for c in e.inputs().into_iter().chain([e.out()]) {
                 lo = lo.min(c.rot);
                 hi = hi.max(c.rot);
+            }
+            if let Eqn::Inst { irot, .. } = e {
+                lo = lo.min(*irot);
+                hi = hi.max(*irot);
             }
         }
         (lo, hi)
@@ -489,11 +493,12 @@ pub fn build_plan(spec: &Spec, wseed: u64) -> Plan {
                                 rp.checks.push(Check::Prod { factors: f_idx, out: o, class });
                                 first_out.get_or_insert(o);
                             }
-                            Eqn::Inst { a, icol } => {
+                            Eqn::Inst { a, icol, irot } => {
                                 let icol = icol % spec.n_instance;
-                                let v = plan.instances[icol][en];
+                                let irow = (en as i32 + *irot) as usize;
+                                let v = plan.instances[icol][irow];
                                 let i = inp!(a.col, off(a), Some(v));
-                                rp.checks.push(Check::Inst { a: i, icol, row: en });
+                                rp.checks.push(Check::Inst { a: i, icol, row: irow });
                                 first_out.get_or_insert(i);
                             }
                             Eqn::Chal { a, b, ch } => {
@@ -799,13 +804,9 @@ impl Circuit<F> for GenCircuit {
                 meta.enable_equality(*c);
             }
         }
-        let instance: Vec<Column<Instance>> = (0..spec.n_instance)
-            .map(|_| {
-                let c = meta.instance_column();
-                meta.enable_equality(c);
-                c
-            })
-            .collect();
+        // (equality on instance columns is enabled after the gates are created, so
+        // that the order of the instance queries is the gates' and not the columns')
+        let instance: Vec<Column<Instance>> = (0..spec.n_instance).map(|_| meta.instance_column()).collect();
         let mut challenges = vec![];
         let mp = spec.max_phase();
         if mp >= 1 {
@@ -848,7 +849,7 @@ impl Circuit<F> for GenCircuit {
                             }
                             acc - q(m, out)
                         }
-                        Eqn::Inst { a, icol } => q(m, a) - m.query_instance(instance[icol % instance.len()], Rotation::cur()),
+                        Eqn::Inst { a, icol, irot } => q(m, a) - m.query_instance(instance[icol % instance.len()], Rotation(*irot)),
                         Eqn::Chal { a, b, ch } => q(m, b) - q(m, a) * m.query_challenge(challenges[*ch]),
                     };
                     polys.push(p);
@@ -863,6 +864,26 @@ impl Circuit<F> for GenCircuit {
                 }
             });
             gate_sel.push(sel);
+        }
+        {
+            let mut need = vec![false; instance.len()];
+            for rp in &plan.regions {
+                for ch in &rp.checks {
+                    if let Check::ToInstance { icol, .. } = ch {
+                        need[*icol] = true;
+                    }
+                }
+                for a in &rp.assigns {
+                    if let How::FromInstance { icol, .. } = &a.how {
+                        need[*icol] = true;
+                    }
+                }
+            }
+            for (i, c) in instance.iter().enumerate() {
+                if need[i] || (spec.eq_mask >> (8 + i)) & 1 == 1 {
+                    meta.enable_equality(*c);
+                }
+            }
         }
         let table_cols = [meta.lookup_table_column(), meta.lookup_table_column()];
         let any_cols = [meta.fixed_column(), meta.fixed_column()];
@@ -1125,7 +1146,11 @@ pub fn expand(kn: &Knobs) -> Spec {
                     vec![Eqn::Prod { factors: inputs.clone(), out }]
                 }
             }
-            2 => vec![Eqn::Inst { a: out, icol: g.konst.unsigned_abs() as usize % n_instance }],
+            2 => vec![Eqn::Inst {
+                a: out,
+                icol: g.konst.unsigned_abs() as usize % n_instance,
+                irot: g.coeffs.first().map(|c| (*c as i32).rem_euclid(3) - 1).unwrap_or(0),
+            }],
             3 => {
                 if phases >= 2 {
                     // b lives in a later-phase column; challenge index = phase(b) - 1
@@ -1216,7 +1241,7 @@ pub fn expand(kn: &Knobs) -> Spec {
         table,
         ops,
         min_degree: if kn.min_degree >= 3 && kn.min_degree <= 7 { Some(kn.min_degree as usize) } else { None },
-        eq_mask: kn.eq_mask as u32,
+        eq_mask: kn.eq_mask as u32 | ((kn.min_degree as u32 & 7) << 8),
     };
     spec.k = min_k(&spec) + (kn.k_extra as u32 % 3);
     spec
